@@ -44,6 +44,8 @@ package tcp
 //@   nocall CloseRead
 //@   nocall CloseWrite
 //@   callpre pipeConn @backend-to-client arg1 == sconn && ifaceloc(arg2) == cconn
+//@   callpre (net.Conn).Close @the-dialled-backend-connection-is-closed-when-the-handler-returns 1 == 1
+//@   alsoprop C09 : the-dialled-backend-connection-is-closed-when-the-handler-returns
 
 //@ func (*tcpProc).HandleConn$3
 //@   prop C05
@@ -96,6 +98,7 @@ package tcp
 //@   requires p != nil && p.cfg != nil && c != nil
 //@   modifies all
 //@   callpre lb.New @the-balancer-is-replaced-only-when-the-policy-changes arg0 == c.LbPolicy && ite(p.cfg == nil, 0, p.cfg.LbPolicy) != arg0
+//@   callpre HealthCheck).Equal @the-new-health-check-is-compared-with-the-configuration-still-in-force p.cfg == old(p.cfg)
 
 // ---- C08: the processor that is built carries the requested name and configuration ----------------------------
 
